@@ -5,7 +5,7 @@ CONSTANTS
   MAXFIT = 2
   NP = 1
   E = 3
-  LAST_WINS = FALSE
+  LAST_WINS = TRUE
   DROP_SETT = FALSE
 INVARIANT NoBad
 INVARIANT GvUsesOwnTranslation
